@@ -146,7 +146,8 @@ Lemma normalize_timeline : forall negate tzh tzm v,
   1 <= n_d v <= max_day (n_y v) (n_mo v) -> 0 <= n_h v <= 24 -> 0 <= n_mi v <= 59 ->
   let r := normalize negate tzh tzm v in
   secs_of r = secs_of v + negate * (tzh * 60 + tzm) * 60 /\
-  1 <= n_mo r <= 12 /\ 1 <= n_d r <= max_day (n_y r) (n_mo r) /\ 0 <= n_h r <= 23 /\ 0 <= n_mi r <= 59 /\ n_s r = n_s v.
+  1 <= n_mo r <= 12 /\ 1 <= n_d r <= max_day (n_y r) (n_mo r) /\ 0 <= n_h r <= 23 /\ 0 <= n_mi r <= 59 /\ n_s r = n_s v /\
+  1 <= n_y r.
 Proof.
   intros negate tzh tzm [y mo d h mi s] Hn Hh Hm Hy Hmo Hd Hhr Hmi. cbn [n_y n_mo n_d n_h n_mi n_s] in *.
   unfold normalize. cbn [n_y n_mo n_d n_h n_mi n_s].
